@@ -237,6 +237,16 @@ func runC11(r *hk.Run) {
 	for i := 0; i < n; i++ {
 		o := genAuthority(rng)
 		t := mutateAuthority(rng, o)
+		if rng.Chance(6) {
+			// fully qualified names: the origin and another host under the same top label
+			top := hk.Pick(rng, []string{"com", "org", "uk", "internal"})
+			o = authority{Kind: "name", Host: hk.Pick(rng, c11Labels) + "." + top + "."}
+			t = authority{Kind: "name", Host: hk.Pick(rng, c11Labels) + "." + top + "."}
+			if rng.Bool() {
+				t.Host = "www." + o.Host
+			}
+			r.Count("policy.trailing-dot-pair")
+		}
 		viaN := rng.Range(1, 4)
 		via := []authority{o}
 		for len(via) < viaN {
